@@ -35,7 +35,9 @@ import (
 type Identifier struct {
 	// We declare a Identifier not as a string but as a struct wrapping a string
 	// to prevent construction of Identifier values through string conversion.
-	str string
+	// The field name differs from that of every other safe type, so that a value
+	// of one safe type cannot be converted to another one either.
+	id string
 }
 
 // To minimize the risk of parsing errors, Identifier values must start with an
@@ -79,5 +81,5 @@ func IdentifierFromConstantPrefix(prefix stringConstant, value string) Identifie
 
 // String returns the string form of the Identifier.
 func (i Identifier) String() string {
-	return i.str
+	return i.id
 }
